@@ -232,7 +232,17 @@ func (o *Opts) pluginConfig() *Node {
 	case 1:
 		return Map() // empty config
 	case 6:
-		// a bare scalar config (legal: the config is whatever follows the source)
+		// a bare scalar config (legal: the config is whatever follows the source), incl. zero values
+		switch t.Draw(5, "plugin:cfgscalar") {
+		case 1:
+			return Bool(false)
+		case 2:
+			return Int(0)
+		case 3:
+			return Str("")
+		case 4:
+			return Float(0)
+		}
 		return Str(o.str("plugin.cfg.val"))
 	case 7:
 		// a list config
